@@ -1721,9 +1721,17 @@ impl<'a, 'b> InternalDelphiLogicalLineParser<'a, 'b> {
         }
 
         let mut line_index = self.get_current_logical_line().tokens.len() - 1;
-        if let Some(TT::Op(OK::Semicolon)) = self.get_current_logical_line_token_types().next_back()
+        // Comments trailing the declaration are not part of it
+        while line_index > 0
+            && matches!(
+                get_token_type_of_line_index(self, line_index),
+                Some(TT::Comment(_))
+            )
         {
             line_index -= 1;
+        }
+        if let Some(TT::Op(OK::Semicolon)) = get_token_type_of_line_index(self, line_index) {
+            line_index = line_index.saturating_sub(1);
         }
         /*
             Traverse backward from the end of line. Set portability directives
